@@ -94,6 +94,10 @@ type Req struct {
 	// ("/p%2Fq"), 2 = "//authority/path", 3 = "scheme://authority/path" (the target URI is
 	// still URL).
 	OpaqueForm int `json:"opaque_form,omitempty"`
+	// HostOverride: Request.Host is set to this while URL.Opaque (forms 2 and 3) names the
+	// authority on the request line - which is the one that counts (RFC 9112 §3.2.2: with the
+	// absolute form the Host field is ignored).
+	HostOverride string `json:"host_override,omitempty"`
 	// BodyLen > 0: the request carries a body of that many bytes (known length).
 	BodyLen int `json:"body_len,omitempty"`
 	// EmptyMethod: the request is sent with Method "" (which net/http defines as GET).
@@ -107,9 +111,9 @@ type Req struct {
 	// Timeout): "pre" = already closed when RoundTrip is called, "post" = closed by the caller
 	// once it has read and closed the response body, "open" = never closed.
 	LegacyCancel string `json:"legacy_cancel,omitempty"`
-	Uncond      Reply  `json:"uncond"`
-	Cond        *Reply `json:"cond,omitempty"`
-	Bg          *Reply `json:"bg,omitempty"`
+	Uncond       Reply  `json:"uncond"`
+	Cond         *Reply `json:"cond,omitempty"`
+	Bg           *Reply `json:"bg,omitempty"`
 }
 
 // Reply describes what the scripted origin does for one call.
